@@ -125,8 +125,12 @@ static void run_cmd(const sim::Cmd &c, sim::Out &out)
   Listener *l = new Listener(*s);
   int units_read = 0;
   bool ended = false;
+  int verdict = -1; // of the whole history: 1 = every solve() succeeded, 0 = a negative answer, -1 = none (discarded, violation)
+  std::string verdict_how;
   auto negative = [&](const std::string &how)
   {
+    verdict = 0;
+    verdict_how = how;
     cnt.inc("negative_verdicts");
     log.ev("negative verdict: " + how);
     ZPlan z(b.m);
@@ -255,6 +259,73 @@ static void run_cmd(const sim::Cmd &c, sim::Out &out)
     }
     if (!viols.empty())
       break;
+    if (u + 1 == b.units.size())
+      verdict = 1;
+  }
+  // P7(c), C02: semantically equivalent formulations get the same verdict. The whole problem is read again by a fresh
+  // solver as ONE unit with its independent constraints in another (seeded) order, once plainly and once with a
+  // tautology added. A verdict only counts when the search ended; a positive one only when the solution checks.
+  if ((prop == "C02" || c.num("variants", 0)) && status == "OK" && viols.empty() && verdict >= 0 && c.num("variants", 1) != 0)
+  {
+    for (int k = 0; k < 2 && viols.empty(); ++k)
+    {
+      const std::string text = b.variant(seed * 31 + static_cast<uint64_t>(k), k == 1);
+      ratio::solver *s2 = new ratio::solver();
+      Listener *l2 = new Listener(*s2);
+      int v2 = -1;
+      std::string how2;
+      try
+      {
+        s2->read(text);
+        v2 = s2->solve() ? 1 : 0;
+        how2 = "solve() == false";
+      }
+      catch (const ratio::unsolvable_exception &)
+      {
+        v2 = 0;
+        how2 = "unsolvable_exception from read()";
+      }
+      catch (const ratio::inconsistency_exception &)
+      {
+        v2 = 0;
+        how2 = "inconsistency_exception from read()";
+      }
+      catch (const std::exception &e)
+      {
+        if (std::string(e.what()).find("inconsistent") != std::string::npos)
+          v2 = 0, how2 = std::string("read(): ") + e.what();
+        else
+          cnt.inc("p7c.variant_rejected_by_reader");
+      }
+      if (v2 < 0)
+        continue;
+      cnt.inc("p7c.variants_run");
+      log.ev("variant " + std::to_string(k) + " -> " + std::to_string(v2));
+      if (v2 == 1)
+      { // only a solution that checks is a witness
+        Checker ck2(*s2, b.m, *l2);
+        ck2.check_all(static_cast<int>(b.units.size()));
+        if (!ck2.out.empty())
+        {
+          cnt.inc("p7c.variant_solution_does_not_check");
+          continue;
+        }
+      }
+      if (v2 == verdict)
+      {
+        cnt.inc("p7c.same_verdict");
+        continue;
+      }
+      const std::string whole = one_line(text).substr(0, 500);
+      const std::string how_variant = std::string("read as one unit with its independent constraints reordered") + (k == 1 ? " and a tautology added" : "");
+      std::string msg;
+      if (verdict == 0)
+        msg = "the planner answered '" + verdict_how + "' but the same problem, " + how_variant + ", is solved and that solution checks | problem: " + whole;
+      else
+        msg = "the problem was solved (and the solution checks) but the same problem, " + how_variant + ", is answered '" + how2 + "' | problem: " + whole;
+      PViolation v{"P7", "P7.equivalent_formulations_differ", msg};
+      (enabled_for(prop, v) ? viols : others).push_back(v);
+    }
   }
   sim::layout::stop();
   cnt.inc("flaws", static_cast<long>(l->flaws.size()));
